@@ -641,7 +641,10 @@ PLAIN_STATES = {
 }
 STALE_STATES = ["stale_device_touched", "stale_device_feature_removed", "stale_defaults_edited", "stale_schema_edited",
                 "stale_device_added", "stale_device_removed", "stale_device_same_size", "stale_device_same_mtime",
-                "stale_schema_same_size", "stale_schema_same_mtime", "stale_cached_file_removed"]
+                "stale_schema_same_size", "stale_schema_same_mtime", "stale_cached_file_removed",
+                # the edited file is one that a process loads after other cached files (its stale record is still in the old cache file
+                # when the first of them makes the cache be rewritten)
+                "stale_schema_edited_late", "stale_data_file_edited_late"]
 WORK_STATES = {"work_edits_loaded_data_cold": {}, "work_edits_loaded_data_warm": {"q": "valid", "d": "valid"}}
 LATE_DAMAGE_STATES = {"late_damage_empty": 0, "late_damage_2_bytes": 2, "late_damage_half": -1, "late_damage_64k": 65536, "late_damage_100": 100}
 DISABLED_STATES = {"disabled_cold": {"nodir": True}, "disabled_warm": {"q": "valid", "d": "valid"},
@@ -740,6 +743,25 @@ def apply_stale_edit(state: str, data: str, db) -> None:
         _rewrite_yaml(os.path.join(data, "common", "database_defaults.yaml"), edit)
     elif state == "stale_schema_edited":
         _rewrite_yaml(os.path.join(data, "jsonschemas", "sch_mbi.yaml"), lambda d: d.__setitem__("c18_marker", {"type": "string"}))
+    elif state == "stale_schema_edited_late":
+        last = [f for f in ("mbi", "tz", "xmcd") if os.path.isfile(os.path.join(data, "jsonschemas", "sch_%s.yaml" % f))][-1]
+        _rewrite_yaml(os.path.join(data, "jsonschemas", "sch_%s.yaml" % last), lambda d: d.__setitem__("c18_marker", {"type": "string"}))
+    elif state == "stale_data_file_edited_late":
+        df = build_queries(db, _S["tier"]).get("data_files") or []
+        if not df:
+            raise HarnessError("no data file among the queries")
+        dev, feat, key = df[-1]
+        rec = db.devices[dev].features()[feat]
+        for k in key:
+            rec = rec[k]
+        path = os.path.join(data, os.path.relpath(db.resolve_file(dev, rec), db.root))
+
+        def edit(t):
+            if path.endswith(".json"):
+                i = t.index("{")
+                return t[: i + 1] + '"c18_marker": 18, ' + t[i + 1:]
+            return "c18_marker: 18\n" + t
+        _retext(path, edit, keep_mtime=False)
     elif state == "stale_device_added":
         os.makedirs(os.path.join(data, "devices", "c18newdev"))
         with open(dev_yaml("c18newdev"), "w", encoding="utf-8") as f:
